@@ -906,6 +906,7 @@ def run_epoch(sim, epoch_cfg, logs_dir):
         ending["traceback"] = traceback.format_exc()[-3000:]
     ending["steps"] = loop.steps
     ending["nodes_constructed"] = sim.nodes_created - sim.nodes_at_epoch
+    ending["max_steps_without_await"] = loop.max_spin
     ending["vtime"] = round(loop.time(), 4)
     ending["pending_tasks"] = 0
     try:
